@@ -144,6 +144,14 @@ class Engine:
     # ------------------------------------------------------------------ z3 helpers
     def func(self, name, *sorts):
         key = name
+        if key in self.uf:
+            f = self.uf[key]
+            same = f.arity() == len(sorts) - 1 and all(f.domain(i) == sorts[i] for i in range(f.arity())) and f.range() == sorts[-1]
+            if not same:
+                # the same field name with another type in another class (SearchRequest.attributes: List[str],
+                # SearchResultEntry.attributes: List[PartialAttribute]): a separate function per signature
+                key = name + "__" + "_".join(str(s_) for s_ in sorts).replace("(", "").replace(")", "").replace(" ", "")
+                name = key
         if key not in self.uf:
             self.uf[key] = z3.Function(name, *sorts)
         return self.uf[key]
